@@ -12,7 +12,9 @@ package lite
 // round-robin and random selection; the whole lite package is instrumented.
 
 import (
+	"context"
 	"errors"
+	"io"
 	"fmt"
 	"math/rand"
 	"net"
@@ -29,6 +31,7 @@ import (
 	"go.minekube.com/gate/pkg/edition/java/proxy/zzverif/sched"
 	"go.minekube.com/gate/pkg/edition/java/proxy/zzverif/schedrun"
 	"go.minekube.com/gate/pkg/edition/java/proxy/zzverif/vrt"
+	"go.minekube.com/gate/pkg/util/errs"
 )
 
 // ---------------------------------------------------------------- reference helpers
@@ -110,6 +113,14 @@ func (o op) String() string {
 }
 
 type capHit struct{}
+
+var dialErrors = []error{
+	errors.New("connection refused"),
+	&errs.VerbosityError{Verbosity: 1, Err: fmt.Errorf("failed to connect to backend: %w", context.DeadlineExceeded)},
+	fmt.Errorf("failed to write handshake packet to backend: %w", io.ErrClosedPipe),
+	&net.OpError{Op: "dial", Net: "tcp", Err: &net.DNSError{Err: "no such host", Name: "x", IsNotFound: true}},
+	context.Canceled,
+}
 
 type world struct {
 	c        cfg
@@ -196,7 +207,9 @@ func (w *world) attempt(o op) (failKey, failDesc, obs string) {
 			}
 			dialed = append(dialed, addr)
 			if failing[refCanon(addr)] {
-				return log, struct{}{}, errors.New("connection refused")
+				// the class of the failure varies with the position of the try and of the attempt: refused,
+				// timed out, reset, unresolvable - none of them excuses the remaining backends
+				return log, struct{}{}, dialErrors[(len(dialed)+w.attempts[0]+w.attempts[1])%len(dialErrors)]
 			}
 			if o.Kind == "ping" {
 				w.sm.RecordLatency(addr, latTables[w.c.Lat][indexOf(w.distinct, refCanon(addr))])
@@ -709,6 +722,8 @@ func TestVerif(t *testing.T) {
 			}
 			r.T.Fatalf("replay: unknown config %q", probe.Scenario)
 		}
+		// the scheduler scenarios first: they are the cheapest part and must not fall victim to the soft deadline on a busy machine
+		schedrun.Run(r, scenarios())
 		if r.Replay() == nil {
 			depth := 2
 			if r.Thorough() {
@@ -774,6 +789,5 @@ func TestVerif(t *testing.T) {
 			runFaultPass(r)
 			runStatusPass(r)
 		}
-		schedrun.Run(r, scenarios())
 	})
 }
